@@ -501,7 +501,19 @@ func RunCase(app *fx.App, tr *fx.Trace, r *fx.Rng) {
 			c.resetDE()
 		case x < 12:
 			c.request()
-			if r.Chance(1, 3) {
+			if r.Chance(1, 6) {
+				// the signing period changes between two requests (governance), then nobody signs: when it SHRINKS the later
+				// signing expires first, and the expiry FIFO is no longer sorted by expiry height
+				c.endBlock()
+				p0 := c.app.TSSKeeper.GetParams(c.ctx).SigningPeriod
+				c.setParams(true)
+				c.request()
+				p1 := c.app.TSSKeeper.GetParams(c.ctx).SigningPeriod
+				if p1 > p0 {
+					p0, p1 = p1, p0
+				}
+				c.quietUntil = c.height + int64(p0) + 2
+			} else if r.Chance(1, 3) {
 				// a second signing in the same block: both attempts expire in the same end-block and are retried one after
 				// the other there (each retry on its own branch of the state)
 				c.request()
